@@ -59,18 +59,18 @@ def line_term(l):
 
 def par_mismatches(ctx, terms, workers, shard):
     """coq_mismatches over `workers` interleaved slices of the cases, in parallel coqc runs."""
-    fns = ["model_ok", "spec_ok", "sound_ok"]
+    fns = ["model_ok", "spec_ok", "sound_ok", "accept_ok"]
     if workers <= 1 or len(terms) < 2 * shard:
         return coq_mismatches(ctx, "c14_cases", HEADER, terms, fns, shard=shard, timeout=1200)
     import concurrent.futures as cf
     per = (len(terms) + workers - 1) // workers
     parts = [(w, w * per, terms[w * per:(w + 1) * per]) for w in range(workers)]
-    out = [[], [], []]
+    out = [[], [], [], []]
     with cf.ThreadPoolExecutor(max_workers=workers) as ex:
         futs = [ex.submit(coq_mismatches, ctx, "c14_cases_w%d" % w, HEADER, part, fns, shard, 1200) for (w, off, part) in parts if part]
         for (w, off, part), fu in zip([p for p in parts if p[2]], futs):
             res = fu.result()
-            for k in range(3):
+            for k in range(4):
                 out[k].extend(off + i for i in res[k])
     return out
 
@@ -84,10 +84,10 @@ def run(ctx):
     q = ctx.quick()
     sizes = {"expr": 700 if q else 40000, "file": 500 if q else 30000,
              "lit": 100 if q else 2000, "layout": 400 if q else 6000, "near": 25 if q else 250,
-             "unparen": 400 if q else 6000}
+             "unparen": 400 if q else 6000, "ungram": 330 if q else 3300}
     coq_cap = {"expr": 30 if q else 2500, "file": 25 if q else 2000, "near": 110 if q else 4000,
                "layout": 50 if q else 3000, "int": 120 if q else 5000, "float": 50 if q else 2000,
-               "unparen": 90 if q else 4000}
+               "unparen": 90 if q else 4000, "ungram": 330 if q else 3300}
     tokcap = 40 if q else 160
     obs = {}
     dist = {}
@@ -126,12 +126,12 @@ def run(ctx):
             add("(%s %s %s)" % ("CExpr" if mode == "expr" else "CFile", c["tokens"], c["want"]), c)
     # ---- near misses
     k = 0
-    ncap = {"near": coq_cap["near"], "unparen": coq_cap["unparen"]}
-    nk = {"near": 0, "unparen": 0}
+    ncap = {"near": coq_cap["near"], "unparen": coq_cap["unparen"], "ungram": coq_cap["ungram"]}
+    nk = {"near": 0, "unparen": 0, "ungram": 0}
     # accepted mutants first: that is where a widened parser shows (model rejects / tree ill-formed)
-    nearall = sorted(obs["near"] + obs["unparen"], key=lambda c: 0 if c.get("parse") == "ok" else 1)
+    nearall = sorted(obs["ungram"] + obs["near"] + obs["unparen"], key=lambda c: 0 if c.get("parse") == "ok" else 1)
     for c in nearall:
-        fam = "unparen" if c["mut"].startswith("unparen") else "near"
+        fam = c["mut"].split(":")[0] if c["mut"].split(":")[0] in ("unparen", "ungram") else "near"
         if not c["ok"]:
             go_bad += 1
             ctx.finding("near:%s" % why_class(c.get("why")), "near-miss text: %s" % c.get("why"),
@@ -203,7 +203,7 @@ def run(ctx):
         add("(CLayout %s %s %s)" % (clist([line_term(l) for l in c["lines"]]), "true" if c["final_newline"] else "false", o), c)
 
     ctx.log("evaluating %d cases in Coq" % len(terms))
-    bad_model, bad_spec, bad_sound = par_mismatches(ctx, terms, 1 if q else 4, 6000 if q else 1000)
+    bad_model, bad_spec, bad_sound, bad_accept = par_mismatches(ctx, terms, 1 if q else 4, 6000 if q else 1000)
     for i in bad_spec:
         c = refs[i]
         if c["kind"] == "lit":
@@ -222,7 +222,14 @@ def run(ctx):
             continue
         ctx.finding("%s:reinterpreted" % c["kind"], "accepted text is not the rendering of the tree returned for it (silent re-interpretation)",
                     {"src": c["src"], "got": c.get("got"), "tokens": c.get("tokens")})
-    only_model = [i for i in bad_model if i not in set(bad_spec)]
+    for i in bad_accept:
+        c = refs[i]
+        cls = re.sub(r"@\d+(:.*)?$", "", c["mut"])
+        ctx.finding("%s:accepted-outside-grammar:%s" % (c["mode"], cls),
+                    "the real parser (resolver: %s) accepts a text the grammar does not generate (the model parser, proved to accept exactly renderings of syntax trees, rejects it): %r -> %s" % (
+                        c.get("resolve") or "-", c["src"][:160], (c.get("got") or "")[:300]),
+                    {"src": c["src"], "template": c.get("base_src"), "mut": c["mut"], "got": c.get("got"), "resolve": c.get("resolve"), "resolve_err": c.get("resolve_err")})
+    only_model = [i for i in bad_model if i not in set(bad_spec) and i not in set(bad_accept)]
     if only_model:
         c = refs[only_model[0]]
         kinds = {}
@@ -234,10 +241,11 @@ def run(ctx):
         "evaluations": sum(len(v) for v in obs.values()),
         "distinct_nontrivial": len(set(c["src"] for v in obs.values() for c in v)),
         "coq_evaluated": len(terms),
-        "rule": "generated trees (depth 6, all expression and statement forms, random layout, minimal+redundant parentheses) -> text -> real ParseExpr/Parse compared with the generated tree and the renderer's positions (Go side, all cases) and real tokens -> Coq model parser = real tree, Print.v(tree) = real token kinds (Coq sample); literal sweeps radix x size (<= 200 bits) x pattern, float forms, every escape in every quoting; layout streams vs the indentation model; one-token deletions/duplications/swaps: accept/reject and tree vs model, accepted text = rendering of its tree",
+        "rule": "generated trees (depth 6, all expression and statement forms, random layout, minimal+redundant parentheses) -> text -> real ParseExpr/Parse compared with the generated tree and the renderer's positions (Go side, all cases) and real tokens -> Coq model parser = real tree, Print.v(tree) = real token kinds (Coq sample); literal sweeps radix x size (<= 200 bits) x pattern, float forms, every escape in every quoting; layout streams vs the indentation model; one-token deletions/duplications/swaps/replacements, texts with one required parenthesis dropped, and structured non-grammatical texts (compound statements in inline suites or after ';', statements/assignments in expression position, suites without indent, chained headers, dangling else/elif, unsupported keywords and notations, malformed def/lambda/call/index/comprehension/load forms, bad indentation): accept/reject and tree vs model, an accept the model rejects is a finding keyed by construct class, accepted text = rendering of its tree",
         "samples": [{"kind": c["kind"], "src": c["src"][:200]} for c in (refs[:3] + refs[len(refs) // 2: len(refs) // 2 + 2])],
         "distribution": dist, "literals": nlit, "go_side_failures": go_bad,
         "model_mismatches": len(bad_model), "spec_mismatches": len(bad_spec), "sound_mismatches": len(bad_sound),
+        "accepted_outside_grammar": len(bad_accept),
     }
     return ctx.finish(LEVEL, cov, assumptions=[
         "strconv.ParseFloat is an oracle for float values (cross-checked against CPython float() on the sweep)",
